@@ -712,6 +712,10 @@ class Executor:
             self.deliver_result(g, None, ret_reg, on_return)
             return
         ic = self.icpt.lookup(fid)
+        if ic is None and fid in self.icpt.cond:
+            flag, f = self.icpt.cond[fid]
+            if flag in self.opts.get("stubs", ()):
+                ic = f
         if ic is not None:
             self.used_intercepts.add(ic.__name__)
             res = ic(self, g, fid, args)
